@@ -255,6 +255,77 @@ func c14One(c *Ctx, i int, doc string, r *gen.Rng) {
 			c14Views(c, i, doc, path, want, wantRaw)
 		}
 	}
+	c14Shared(c, i, doc, tree, r)
+}
+
+// c14Shared: one node answers many lookups. A lazily parsed object changes its
+// representation while it is read (pairs are appended as the walk proceeds, the
+// key index is built when the walk reaches the end), so the answer to the same
+// Get must not depend on what was asked before.
+func c14Shared(c *Ctx, i int, doc string, tree *ref.Value, r *gen.Rng) {
+	if tree.Kind != ref.Obj || len(tree.Keys) == 0 {
+		return
+	}
+	first := map[string]*ref.Value{}
+	var keys []string
+	for k, key := range tree.Keys {
+		if _, ok := first[key]; !ok {
+			first[key] = tree.Elems[k]
+			keys = append(keys, key)
+		}
+	}
+	for variant := 0; variant < 3; variant++ {
+		label := []string{"NewRaw", "GetFromString", "Searcher(ConcurrentRead)"}[variant]
+		c.Guard(i, "shared root/"+label, func() {
+			var root ast.Node
+			switch variant {
+			case 0:
+				root = ast.NewRaw(doc)
+			case 1:
+				root, _ = sonic.GetFromString(doc)
+			default:
+				s := ast.NewSearcher(doc)
+				s.ConcurrentRead = true
+				root, _ = s.GetByPath()
+			}
+			look := func(phase string) {
+				for _, key := range keys {
+					n := root.Get(key)
+					if n == nil || !n.Exists() || n.Check() != nil {
+						c.Violate(i, "Node.Get/"+label, "a present key is not found "+phase, map[string]string{"doc": q(doc), "key": q(key), "members": strconv.Itoa(len(tree.Keys))})
+						continue
+					}
+					raw, _ := n.Raw()
+					gt, ok := tokensOf([]byte(raw))
+					if !ok || strings.Join(gt, "\x00") != strings.Join(first[key].Tokens(nil), "\x00") {
+						c.Violate(i, "Node.Get/"+label, "Get returns another value than the first member with that key "+phase, map[string]string{"doc": q(doc), "key": q(key), "got": q(raw)})
+					}
+				}
+			}
+			order := r.Intn(4)
+			if order == 0 {
+				look("on first contact")
+			}
+			if order <= 1 {
+				// a miss walks the object to its end
+				if n := root.Get("\x00no such key"); n != nil && n.Exists() {
+					c.Violate(i, "Node.Get/"+label, "a missing key is found", q(doc))
+				}
+				look("after a miss walked the whole object")
+			}
+			if order == 2 {
+				root.Index(len(tree.Keys) / 2)
+				look("after Index walked half of the object")
+			}
+			n := 0
+			root.ForEach(func(path ast.Sequence, node *ast.Node) bool { n++; return true })
+			if n != len(tree.Keys) {
+				c.Violate(i, "Node.ForEach/"+label, "visits a different number of members", map[string]string{"doc": q(doc), "got": strconv.Itoa(n), "want": strconv.Itoa(len(tree.Keys))})
+			}
+			look("after ForEach")
+			c.Count("shared_root_lookups", int64(len(keys)))
+		})
+	}
 }
 
 // c14Views checks every read-only view of the located node against encoding/json on the span.
@@ -497,7 +568,13 @@ func runC14(c *Ctx) {
 				if j > 0 {
 					sb.WriteString(",")
 				}
-				fmt.Fprintf(&sb, `"%s":%s`, []string{"a", "b", "dup", "", "k", "ab", "abc"}[r.Intn(7)]+strconv.Itoa(r.Intn(4)), r.SimpleNumber())
+				key := []string{"a", "b", "dup", "", "k", "ab", "abc"}[r.Intn(7)] + strconv.Itoa(r.Intn(4))
+				if r.Chance(1, 3) {
+					// the same key spelled with an escape sequence
+					p := r.Intn(len(key))
+					key = key[:p] + fmt.Sprintf(`\u%04x`, key[p]) + key[p+1:]
+				}
+				fmt.Fprintf(&sb, `"%s":%s`, key, r.SimpleNumber())
 			}
 			sb.WriteString("}")
 			doc = sb.String()
